@@ -152,6 +152,17 @@ def step (reg : Registry) (toks : List String) : Option (Registry × String) :=
     let l ← parseInt? l
     let inst := showR (fun m => showR showInts (Mapping.instants m l)) (mapLocal d.get l)
     some (reg, s!"{inst} | {showR toString (atStrictly d.get l)} | {showR toString (atLeniently d.get l)}")
+  | "zone.resolvers" :: zid :: l :: _cal => do
+    let d ← reg.get? zid
+    let l ← parseInt? l
+    match mapLocal d.get l with
+    | .error e => some (reg, s!"!{e.name}")
+    | .ok m =>
+      let sh := showR (fun (t : Int) => toString t)
+      let combos := [AmbRes.earlier, AmbRes.later, AmbRes.throw].flatMap fun a =>
+        [SkipRes.endOfBefore, SkipRes.startOfAfter, SkipRes.forwardShifted, SkipRes.throw].map fun s =>
+          sh (resolveLocal d.get a s l)
+      some (reg, s!"{sh (m.single l)} | {sh (m.first l)} | {sh (m.last l)} | {" ".intercalate combos}")
   | ["zone.startofday", zid, l] => do
     let d ← reg.get? zid
     let l ← parseInt? l
